@@ -316,9 +316,25 @@ func normExpr(e ast.Expr) string { return types.ExprString(e) }
 // and interface methods implemented in the lexer packages) from the machine
 // constructors. Closures are included only if called directly.
 func compileCone(w *World) map[*types.Func]*ast.FuncDecl {
+	var roots []*types.Func
+	for _, c := range []struct{ pkg, fn string }{
+		{"xpath/grammars/expr", "NewExprMachine"}, {"xpath/grammars/expr", "NewExprMachineWithCustomFunctions"},
+		{"xpath/grammars/leafref", "NewLeafrefMachine"},
+		{"xpath/grammars/path_eval", "NewPathEvalMachine"}, {"xpath/grammars/path_eval", "NewPathEvalMachineWithCustomFns"},
+	} {
+		roots = append(roots, w.Func(c.pkg, c.fn))
+	}
+	return staticCone(w, []string{"xpath", "xpath/grammars/expr", "xpath/grammars/leafref", "xpath/grammars/path_eval", "xpath/xutils"}, roots, false)
+}
+
+// staticCone: functions reachable from roots through resolved static calls,
+// interface methods implemented in the given packages, `go` statements and
+// (when withValues) functions referenced as values (state functions).
+// Function literals are part of their enclosing function only when
+// withValues is set; otherwise only directly executed code is followed.
+func staticCone(w *World, keys []string, roots []*types.Func, withValues bool) map[*types.Func]*ast.FuncDecl {
 	decls := map[*types.Func]*ast.FuncDecl{}
 	pkgOf := map[*types.Func]*packages.Package{}
-	keys := []string{"xpath", "xpath/grammars/expr", "xpath/grammars/leafref", "xpath/grammars/path_eval", "xpath/xutils"}
 	for _, k := range keys {
 		p := w.Pkg(k)
 		for _, fd := range funcDecls(p) {
@@ -328,9 +344,12 @@ func compileCone(w *World) map[*types.Func]*ast.FuncDecl {
 			}
 		}
 	}
-	// interface method → implementations among decls
 	impls := func(m *types.Func) []*types.Func {
 		var out []*types.Func
+		it, ok := m.Type().(*types.Signature).Recv().Type().Underlying().(*types.Interface)
+		if !ok {
+			return nil
+		}
 		for f := range decls {
 			if f.Name() != m.Name() {
 				continue
@@ -340,8 +359,7 @@ func compileCone(w *World) map[*types.Func]*ast.FuncDecl {
 				continue
 			}
 			recv := sig.Recv().Type()
-			it, ok := m.Type().(*types.Signature).Recv().Type().Underlying().(*types.Interface)
-			if ok && (types.Implements(recv, it) || types.Implements(types.NewPointer(recv), it)) {
+			if types.Implements(recv, it) || types.Implements(types.NewPointer(recv), it) {
 				out = append(out, f)
 			}
 		}
@@ -356,19 +374,14 @@ func compileCone(w *World) map[*types.Func]*ast.FuncDecl {
 		cone[f] = decls[f]
 		work = append(work, f)
 	}
-	for _, c := range []struct{ pkg, fn string }{
-		{"xpath/grammars/expr", "NewExprMachine"}, {"xpath/grammars/expr", "NewExprMachineWithCustomFunctions"},
-		{"xpath/grammars/leafref", "NewLeafrefMachine"},
-		{"xpath/grammars/path_eval", "NewPathEvalMachine"}, {"xpath/grammars/path_eval", "NewPathEvalMachineWithCustomFns"},
-	} {
-		add(w.Func(c.pkg, c.fn))
+	for _, f := range roots {
+		add(f)
 	}
 	for len(work) > 0 {
 		f := work[len(work)-1]
 		work = work[:len(work)-1]
 		p := pkgOf[f]
-		// calls outside function literals, plus function literals that are invoked directly or deferred
-		inspectNoLit(decls[f].Body, func(n ast.Node) bool {
+		visit := func(n ast.Node) bool {
 			switch x := n.(type) {
 			case *ast.CallExpr:
 				c := calleeOf(p, x)
@@ -384,9 +397,34 @@ func compileCone(w *World) map[*types.Func]*ast.FuncDecl {
 					}
 				}
 				add(c)
+			case *ast.Ident:
+				if withValues {
+					if fo, ok := p.TypesInfo.Uses[x].(*types.Func); ok {
+						add(fo)
+					}
+				}
+			case *ast.SelectorExpr:
+				if withValues {
+					if fo, ok := p.TypesInfo.Uses[x.Sel].(*types.Func); ok {
+						if sig, ok := fo.Type().(*types.Signature); ok && sig.Recv() != nil {
+							if _, isI := sig.Recv().Type().Underlying().(*types.Interface); isI {
+								for _, im := range impls(fo) {
+									add(im)
+								}
+								return true
+							}
+						}
+						add(fo)
+					}
+				}
 			}
 			return true
-		})
+		}
+		if withValues {
+			ast.Inspect(decls[f].Body, visit)
+		} else {
+			inspectNoLit(decls[f].Body, visit)
+		}
 	}
 	return cone
 }
@@ -405,13 +443,18 @@ func isGeneratedFile(w *World, p *packages.Package, pos token.Pos) bool {
 }
 
 func c05CompilePanics(w *World, r *Report) {
-	cone := compileCone(w)
+	scanPanicObligations(w, r, "R05.5", compileCone(w), c05Reviewed, false, "reachable from a machine constructor", "a crafted expression may panic the compiler")
+}
+
+// scanPanicObligations: every index/slice expression, unchecked type
+// assertion and explicit panic (unless panicsOK) in the cone is an obligation.
+func scanPanicObligations(w *World, r *Report, rule string, cone map[*types.Func]*ast.FuncDecl, reviewed []reviewedEntry, withLits bool, where, consequence string) {
 	var fs []*types.Func
 	for f := range cone {
 		fs = append(fs, f)
 	}
 	sort.Slice(fs, func(i, j int) bool { return fs[i].FullName() < fs[j].FullName() })
-	r.Count("functions in the compile-side cone", len(fs))
+	r.Count("functions in the cone of "+rule, len(fs))
 	pkgByTypes := map[*types.Package]*packages.Package{}
 	for _, p := range w.All {
 		pkgByTypes[p.Types] = p
@@ -423,7 +466,11 @@ func c05CompilePanics(w *World, r *Report) {
 			continue
 		}
 		name := funcDeclName(fd)
-		inspectNoLit(fd.Body, func(n ast.Node) bool {
+		insp := inspectNoLit
+		if withLits {
+			insp = func(n ast.Node, f func(ast.Node) bool) { ast.Inspect(n, f) }
+		}
+		insp(fd.Body, func(n ast.Node) bool {
 			var expr ast.Expr
 			kind := ""
 			switch x := n.(type) {
@@ -467,7 +514,7 @@ func c05CompilePanics(w *World, r *Report) {
 				expr, kind = x, "type assertion"
 			case *ast.CallExpr:
 				if id, ok := x.Fun.(*ast.Ident); ok && id.Name == "panic" {
-					if _, isB := p.TypesInfo.Uses[id].(*types.Builtin); isB {
+					if _, isB := p.TypesInfo.Uses[id].(*types.Builtin); isB && !skipExplicitPanics {
 						expr, kind = x, "explicit panic"
 					}
 				}
@@ -479,24 +526,24 @@ func c05CompilePanics(w *World, r *Report) {
 			c := name + ": " + es
 			// range-loop index pattern
 			if kind == "index" && rangeIndexSafe(p, fd, expr.(*ast.IndexExpr)) {
-				r.OK("R05.5", c, expr.Pos(), kind+": index is the key of a range over the same slice")
+				r.OK(rule, c, expr.Pos(), kind+": index is the key of a range over the same slice")
 				return true
 			}
 			var rev *reviewedEntry
-			for i := range c05Reviewed {
-				if c05Reviewed[i].Func == name && c05Reviewed[i].Expr == es {
-					rev = &c05Reviewed[i]
+			for i := range reviewed {
+				if reviewed[i].Func == name && reviewed[i].Expr == es {
+					rev = &reviewed[i]
 				}
 			}
 			if rev == nil {
-				r.Fail("R05.5", c, expr.Pos(), kind+" reachable from a machine constructor is neither guarded by a recognised pattern nor reviewed: a crafted expression may panic the compiler")
+				r.Fail(rule, c, expr.Pos(), kind+" "+where+" is neither guarded by a recognised pattern nor reviewed: "+consequence)
 				return true
 			}
 			if rev.Requires != "" && !guardFact(p, fd, expr, rev.Requires) {
-				r.Fail("R05.5", c, expr.Pos(), kind+": the guard this access relies on ("+rev.Requires+": "+rev.Reason+") is no longer present in the function")
+				r.Fail(rule, c, expr.Pos(), kind+": the guard this access relies on ("+rev.Requires+": "+rev.Reason+") is no longer present in the function")
 				return true
 			}
-			r.Reviewed("R05.5", c, expr.Pos(), kind+": "+rev.Reason)
+			r.Reviewed(rule, c, expr.Pos(), kind+": "+rev.Reason)
 			return true
 		})
 	}
@@ -582,6 +629,8 @@ func guardFact(p *packages.Package, fd *ast.FuncDecl, access ast.Expr, kind stri
 				switch l := is.Body.List[k-1].(type) {
 				case *ast.ReturnStmt:
 					exits = true
+				case *ast.BranchStmt:
+					exits = l.Tok == token.CONTINUE || l.Tok == token.BREAK
 				case *ast.ExprStmt:
 					if ce, ok := l.X.(*ast.CallExpr); ok {
 						if id, ok := ce.Fun.(*ast.Ident); ok && id.Name == "panic" {
